@@ -100,6 +100,7 @@ structure Skeleton where
   stubOneOutDecodesValueOnlyIfNotError : Bool
   /- ---------------- response loop ---------------- -/
   respPublishAsync           : Bool  -- `go responseResolver.Publish(…)`
+  respPublishFireAndForget   : Bool  -- the publish is a statement of its own; nothing (no setErr) hangs on whether somebody took the value
   respPublishKeyIsResCall    : Bool
   respPublishValueIsResValue : Bool
   respErrIffTrimNonEmpty     : Bool  -- err = errors.New(res.Err) iff TrimSpace(res.Err) != ""
